@@ -1,5 +1,5 @@
 From Coq Require Import ZArith List Bool Arith.
-From PV Require Import Base.U64 E3.E3_Run C05.C05_Asym C05.C05_AsymProofs C05.C05_AsymTSO C05.C05_Model C05.C05_Proofs C05.C05_Proofs2 C05.C05_Proofs3 C05.C05_Proofs4 C05.C05_Proofs5 C05.C05_Pool C05.C05_PoolProofs.
+From PV Require Import Base.U64 E3.E3_Run C05.C05_Asym C05.C05_AsymProofs C05.C05_AsymTSO C05.C05_Model C05.C05_Proofs C05.C05_Proofs2 C05.C05_Proofs3 C05.C05_Proofs4 C05.C05_Proofs5 C05.C05_Pool C05.C05_PoolProofs C05.C05_E4 C05.C05_E4Proofs.
 Import ListNotations.
 
 (* ---- asymmetric_spinLock (the run-queue lock) ------------------------------------------------- *)
@@ -134,3 +134,10 @@ Theorem pool_join_refuted :
   p_joined (prun false pinit f24_witness) 0 = 1%nat /\ p_reuse (prun false pinit f24_witness2) = true.
 Proof. exact pool_join_refuted_proof. Qed.
 Print Assumptions pool_join_refuted.
+
+(* ---- engine E4: every state visited by a controlled multi-vCPU replay (the states whose placement dumps are compared
+   with the real scheduler after every command) is a reachable state of the proved transition system ---- *)
+Theorem e4_reachable : forall progs nv n flags t0 cs,
+  reachable progs nv n flags t0 (e4_run progs (init_state nv n flags t0) cs).
+Proof. exact e4_reachable_proof. Qed.
+Print Assumptions e4_reachable.
